@@ -49,3 +49,17 @@ pub broadcast proof fn lemma_vec_ext_b<T>(a: Vec<T>, b: Vec<T>)
     axiom_vec_canon(a);
     axiom_vec_canon(b);
 }
+
+// ---- str: trimming is an uninterpreted function of the characters; emptiness / first char / byte length by view
+pub uninterp spec fn spec_trim(s: Seq<char>) -> Seq<char>;
+pub uninterp spec fn spec_utf8_len(s: Seq<char>) -> nat;
+pub axiom fn axiom_utf8_len_empty(s: Seq<char>)
+    ensures (spec_utf8_len(s) == 0) == (s.len() == 0);
+pub assume_specification [str::trim] (s: &str) -> (r: &str) ensures r@ == spec_trim(s@);
+pub uninterp spec fn spec_starts_with<P>(s: Seq<char>, p: P) -> bool;
+pub assume_specification<P: core::str::pattern::Pattern> [str::starts_with::<P>] (s: &str, p: P) -> (r: bool) ensures r == spec_starts_with(s@, p);
+pub broadcast axiom fn axiom_starts_with_char(s: Seq<char>, c: char) ensures #[trigger] spec_starts_with(s, c) == (s.len() > 0 && s[0] == c);
+// str::len is the UTF-8 byte length: an uninterpreted function of the characters (rule R14: `x.len()` on a str -> str_len(x))
+#[verifier::external_body]
+pub fn str_len(s: &str) -> (r: usize) ensures r == spec_utf8_len(s@) { s.len() }
+
